@@ -254,4 +254,5 @@ def apply_chain_np(X, chain):
 
 def frame_np(X, frame):
     if frame is None: return X
+    if isinstance(frame, range): frame = list(frame)          # a range is an index list (negative entries count from the end)
     return X[:, frame]
